@@ -158,10 +158,11 @@ def commands(t, tier, w32=False):
     if w32:
         out.append("mul mo=4 hi=0 ks=all")
         out.append("hasorder mo=4 hi=0 ks=all")
+    big = n > BIG_N            # ~1000-point curves: two complete scalar sweeps (widths 4 and 6) instead of five
     for mo in (8, 16, 48):
-        out.append("mul mo=%d hi=0 ks=all" % mo)
-        out.append("mul mo=%d hi=1 ks=%s" % (mo, "all" if (mo == 8 or small) else bl))
-        out.append("hasorder mo=%d hi=0 ks=%s" % (mo, "all" if mo == 8 else bl.replace("0,", "", 1)))
+        out.append("mul mo=%d hi=0 ks=%s" % (mo, "all" if (not big or mo != 16) else bl))
+        out.append("mul mo=%d hi=1 ks=%s" % (mo, "all" if ((mo == 8 and not big) or small) else bl))
+        out.append("hasorder mo=%d hi=0 ks=%s" % (mo, "all" if (mo == 8 and not big) else bl.replace("0,", "", 1)))
         out.append("hasorder mo=%d hi=1 ks=%s" % (mo, bl.replace("0,", "", 1)))
     ds = [(0, 0), (0, 1), (1, 0), (1, 1), (1, n - 1), (n - 1, 1), (2, n - 2), (n, 1), (1, n), (n + 1, n - 1), (3, 5), (2 * n + 2, 2 * n + 1)]
     for k, (d1, d2) in enumerate(ds):
